@@ -47,6 +47,18 @@ INFO = {
     "C16-B": ("IDNA_HIGH_IGNORED_END off by one: U+E01EF no longer ignored", "non-ASCII domain containing exactly U+E01EF"),
     "C17-A": ("ada_set_href assigns the parse result into the handle: a failed call poisons the handle", "valid handle, ada_set_href with an unparsable input, then any later call"),
     "C17-B": ("empty owned strings are returned as a pointer to a literal; ada_free_owned_string deletes it", "owned string with empty content (to_string of an empty list, failed idna conversion) followed by its free"),
+    "C01-C": ("is_windows_drive_letter() third-character test shrunk from '/ \\ ? #' to '/ \\'", "relative reference starting with a drive letter immediately followed by '?' resolved against a file: base"),
+    "C01-D": ("IPv6 compression picks the last of equally long zero runs ('>=' instead of '>')", "IPv6 host with two or more zero runs of equal maximal length >= 2"),
+    "C03-C": ("delete_dash_dot() shifts search_start or hash_start, not both", "aggregator, host-less non-special URL with '/.//' path and both query and fragment, then a host setter"),
+    "C03-D": ("url::set_port leaves is_valid false after a rejected overflowing port", "ada::url, set_port('65536'...) (or set_host('h:70000')), then any later port write or relative parse"),
+    "C07-C": ("update_base_authority username-only branch sets username_end to the start of the username", "aggregator, relative reference inheriting an authority with a username and no password from the base"),
+    "C07-D": ("add_authority_slashes_if_needed() shifts the query or the fragment offset, never both", "non-special URL without authority having both query and fragment, then a successful host setter"),
+    "C09-C": ("end-of-parse size check skipped when the input is at most limit/3 and there is no base", "host growth above 3x (IPv4 canonicalisation, IDNA + Punycode) under a limit between input and result size"),
+    "C09-D": ("set_search rollback saves only get_search(): an empty-but-present query is lost on refusal", "aggregator with '?' present but empty, set_search whose result would exceed the limit"),
+    "C12-C": ("form_urlencoded_decode hex validity test '(hi | lo) >= 16' became '(hi & lo) >= 16'", "malformed escape with exactly one hex digit (%4G, %G4) in an init / reset string"),
+    "C12-D": ("'already sorted' flag not cleared by set() of an absent name", "history sort(); set(absent name); sort()"),
+    "C19-C": ("AUTHORITY state host-missing check tests the wrong view: non-special URL with credentials and empty host accepted", "non-special scheme, userinfo, empty host, then at least one more character (foo://user:pw@/path)"),
+    "C19-D": ("cannot_have_credentials_or_port() no longer excludes file URLs", "file URL with a non-empty host followed by set_port / set_username / set_password"),
     "C19-A": ("parse_scheme slow path no longer clears a port equal to the new scheme's default", "set_protocol with a special scheme spelled with an upper-case letter on a URL whose port is that scheme's default (https://h:80 -> 'HTTP')"),
     "C19-B": ("unicode::to_ascii accepts an empty IDNA result: special URL with an empty host", "special non-file URL whose host consists only of IDNA-ignored code points (U+00AD ...), via parse or host setters"),
     "C18-A": ("AVX-512-only ipv6_structure_plausible(): 'colons > 8' became '> 7'", "-mavx512bw -mavx512vl build, bracketed IPv6 host with exactly 8 colons"),
